@@ -1216,3 +1216,83 @@ Proof.
       constructor; [unfold op_good; rewrite E1; assumption | eapply IH; eauto]. }
     apply (apply_ops_lib fo os t GO H).
 Qed.
+
+(* ------------------------------------------------------------------ increment: the documented meaning, read back *)
+Lemma lookup_set_same : forall s x ms y, lookup s ms = Some y -> lookup s (set_member s x ms) = Some x.
+Proof.
+  intros s x. induction ms as [|[k v] r IH]; intros y H; [discriminate|].
+  cbn [lookup set_member] in *. destruct (bytes_eqb k s) eqn:E.
+  - cbn [lookup]. rewrite E. reflexivity.
+  - cbn [lookup]. rewrite E. eapply IH. exact H.
+Qed.
+
+Lemma aidx_same_length : forall c l l' s, length l = length l' -> aidx c l s = aidx c l' s.
+Proof. intros c l l' s H. unfold aidx. rewrite H. destruct l, l'; try discriminate; reflexivity. Qed.
+
+Lemma nth_error_mid_set : forall (A : Type) (l : list A) i x, (i < length l)%nat ->
+  nth_error (firstn i l ++ x :: skipn (S i) l) i = Some x.
+Proof.
+  intros A l i x L. rewrite nth_error_app2; rewrite firstn_length_le by lia; [|lia]. rewrite Nat.sub_diag. reflexivity.
+Qed.
+
+Lemma set_length : forall (A : Type) (l : list A) i x, (i < length l)%nat -> length (firstn i l ++ x :: skipn (S i) l) = length l.
+Proof.
+  intros A l i x L. rewrite app_length. cbn [length]. rewrite firstn_length_le by lia. rewrite skipn_length. lia.
+Qed.
+
+(* after replacing the value at a pointer, reading the pointer gives the new value *)
+Lemma jget_after_set : forall c x p v v', jmod c v p (set_here c x) = Some v' -> jget c v' p = Some x.
+Proof.
+  intros c x. induction p as [|s r IH]; intros v v' H; [discriminate|].
+  destruct r as [|s2 r'].
+  - cbn [jmod] in H. unfold set_here in H. destruct v as [| | | | |l|ms]; try discriminate.
+    + destruct (aidx c l s) as [i|] eqn:A; [|discriminate]. apply some_inj in H. subst v'. rewrite jget_cons.
+      pose proof (aidx_lt _ _ _ _ A) as L.
+      rewrite (aidx_same_length c _ l s (set_length _ l i x L)), A. rewrite nth_error_mid_set by exact L. reflexivity.
+    + destruct (lookup s ms) as [y|] eqn:L; [|discriminate]. apply some_inj in H. subst v'. rewrite jget_cons.
+      rewrite (lookup_set_same s x ms y L). reflexivity.
+  - rewrite jmod_cons2 in H. destruct v as [| | | | |l|ms]; try discriminate.
+    + destruct (aidx c l s) as [i|] eqn:A; [|discriminate].
+      destruct (nth_error l i) as [y|] eqn:N; [|discriminate].
+      destruct (jmod c y (s2 :: r') (set_here c x)) as [y'|] eqn:M; [|discriminate]. apply some_inj in H. subst v'.
+      pose proof (aidx_lt _ _ _ _ A) as L. rewrite jget_cons.
+      rewrite (aidx_same_length c _ l s (set_length _ l i y' L)), A. rewrite nth_error_mid_set by exact L.
+      eapply IH. exact M.
+    + destruct (lookup s ms) as [y|] eqn:L; [|discriminate].
+      destruct (jmod c y (s2 :: r') (set_here c x)) as [y'|] eqn:M; [|discriminate]. apply some_inj in H. subst v'.
+      rewrite jget_cons. rewrite (lookup_set_same s y' ms y L). eapply IH. exact M.
+Qed.
+
+(* `increment` of an integer member / array element by an integer, the sum being an int64: success, and the pointer then reads
+   the exact sum *)
+Theorem increment_int_exact : forall fo t o v a b,
+  inv t -> p_op o = OIncrement -> is_root (p_path o) = false -> p_val o = Some v -> good v -> val v = JI64 b ->
+  jget lenient (val t) (p_path o) = Some (JI64 a) -> - 9223372036854775808 <= a + b < 9223372036854775808 ->
+  fst (apply_op fo t o) = RcOk /\ inv (snd (apply_op fo t o)) /\
+  jget lenient (val (snd (apply_op fo t o))) (p_path o) = Some (JI64 (a + b)).
+Proof.
+  intros fo t o v a b H K R PV G VB J RANGE.
+  rewrite (apply_inc_eq fo t o K), R, PV.
+  pose proof (poc_inc fo v t (p_path o) G H (not_root_nonempty _ R)) as P.
+  unfold ext_inc_alt in P. rewrite J, VB in P. unfold nsum, num_sum in P.
+  assert (S64 : sw 64 (a + b) = a + b).
+  { apply sw64_id. change (2 ^ 63) with 9223372036854775808. lia. }
+  rewrite S64 in P.
+  destruct (jmod lenient (val t) (p_path o) (set_here lenient (JI64 (a + b)))) as [d'|] eqn:M.
+  - destruct P as [P1 [P2 [P3 _]]]. split; [exact P1|]. split; [exact P3|]. rewrite P2. eapply jget_after_set. exact M.
+  - exfalso. (* the pointer resolves, so the replacement succeeds *)
+    assert (E : forall p dv x y, jget lenient dv p = Some y -> p <> [] -> jmod lenient dv p (set_here lenient x) <> None).
+    { induction p as [|s r IH]; intros dv x y JG NE; [contradiction|].
+      destruct r as [|s2 r'].
+      - cbn [jmod]. unfold set_here. cbn [jget] in JG. destruct dv as [| | | | |l|ms]; try discriminate.
+        + destruct (aidx lenient l s); [discriminate | discriminate].
+        + destruct (lookup s ms); [discriminate | discriminate].
+      - rewrite jmod_cons2. rewrite jget_cons in JG. destruct dv as [| | | | |l|ms]; try discriminate.
+        + destruct (aidx lenient l s) as [i|]; [|discriminate]. destruct (nth_error l i) as [z|]; [|discriminate].
+          pose proof (IH z x y JG ltac:(discriminate)) as Q.
+          destruct (jmod lenient z (s2 :: r') (set_here lenient x)); [discriminate | contradiction].
+        + destruct (lookup s ms) as [z|]; [|discriminate].
+          pose proof (IH z x y JG ltac:(discriminate)) as Q.
+          destruct (jmod lenient z (s2 :: r') (set_here lenient x)); [discriminate | contradiction]. }
+    exact (E _ _ _ _ J (not_root_nonempty _ R) M).
+Qed.
